@@ -317,6 +317,7 @@ func checkC11(r *Report, known []Finding) {
 	}
 	r.Sample(map[string]any{"relations": []string{"Match<=>FindIndex!=nil", "Find==h[FindIndex]", "FindSubmatchIndex[0:2]==FindIndex", "bytes==string", "reader==string", "head(FindAll)==FindIndex",
 		"FindAll(n)==prefix", "Count==len(FindAll)", "AllIndex==FindAll", "AppendAllIndex==FindAll", "FindAllSubmatch.group0==FindAll", "Engine.*==top-level"}})
+	c04MetaFindAllTie(r) // Engine.FindAllIndicesStreaming / Count / FindAllSubmatch / FindSubmatchAt / FindIndicesAt are views of the same loops: vs Cx.MetaFindAll, each other and regexp
 	replayKnownExamples(r, known, "C11")
 }
 
@@ -367,7 +368,7 @@ func checkC12(r *Report, known []Finding) {
 		p, cfg, api, def, got, strat, refStrat string
 		h                                      []byte
 	}
-	var mu sync.Mutex
+	var mu, slowMu sync.Mutex
 	var all []dis
 	var wg sync.WaitGroup
 	jobs := make(chan int, 64)
@@ -444,6 +445,24 @@ func checkC12(r *Report, known []Finding) {
 						for _, o := range obs {
 							a := guard(10*time.Second, func() string { return o.Fn(def, h) })
 							b := guard(10*time.Second, func() string { return o.Fn(cx, h) })
+							// slow is not wrong (work is C05's subject): a call that misses the deadline while twelve workers share the
+							// machine is repeated alone with a long deadline; only a call that does not come back at all counts
+							if a == "TIMEOUT" {
+								slowMu.Lock()
+								a = guard(180*time.Second, func() string { return o.Fn(def, h) })
+								slowMu.Unlock()
+								mu.Lock()
+								r.Dist["slow-call-retried-alone"]++
+								mu.Unlock()
+							}
+							if b == "TIMEOUT" {
+								slowMu.Lock()
+								b = guard(180*time.Second, func() string { return o.Fn(cx, h) })
+								slowMu.Unlock()
+								mu.Lock()
+								r.Dist["slow-call-retried-alone"]++
+								mu.Unlock()
+							}
 							if a != b {
 								local = append(local, dis{p, cf.name, o.API, a, b, defStrat, "", h})
 							}
